@@ -29,7 +29,8 @@ def main():
                 sh("git reset -q --hard HEAD && git clean -fdq", cwd=WT)
                 results[sid] = {"ok": False, "why": "patch does not apply: " + out[-200:]}
                 print(sid, results[sid]); continue
-            sh(f"git diff > /tmp/seed_{sid}.diff", cwd=WT)
+            sh("git reset -q", cwd=WT)
+            sh(f"git diff -- pysensors > /tmp/seed_{sid}.diff", cwd=WT)
             rc1, o1 = sh(f"/venv/bin/python {d}/demo.py", cwd=WT, env=env)
             rct, ot = sh("/venv/bin/python -m pytest -q -p no:cacheprovider --continue-on-collection-errors tests 2>&1 | tail -1", cwd=WT, env=env)
             sh("git reset -q --hard HEAD && git clean -fdq", cwd=WT)
